@@ -419,17 +419,27 @@ def corr_quote(chk, drv):
         q = drv.batch([("quote", {"ss": part})])[0]
         quoted += q
         parsed += drv.batch([("shparse", {"ss": q})])[0]
-    for s, q, p in zip(strings, quoted, parsed):
-        impl = curl_mod.quote(s)
+    impls = [curl_mod.quote(s) for s in strings]
+    # the observable is the word sh reads back, not the spelling: an implementation output that is spelled differently
+    # is parsed on its own (specification; the real sh where the text is outside the specification's fragment)
+    other = sorted({i for i, q in zip(impls, quoted) if i != q})
+    other_parsed = dict(zip(other, drv.batch([("shparse", {"ss": other})])[0])) if other else {}
+    for s, q, p, impl in zip(strings, quoted, parsed, impls):
         special = any(not (c.isascii() and (c.isalnum() or c in "_@%+=:,./-")) for c in s)
         chk.case("quote", key=s, nontrivial=special or not s, sample={"in": s, "impl": impl})
-        if impl != q:
+        if impl == q:
+            ip = p
+        else:
+            chk.feature("quote:spelled-differently")
+            ip = other_parsed[impl]
+            if ip is None:
+                ip = sh_line_words(impl)
+        if ip != p:
             chk.disagreement("quote", s, q, impl)
-        # replay: the specification reads the implementation's output back as exactly [s]
-        if drv_parse_cache_ok(impl, q, p, s):
-            continue
-        chk.violation("C09:shlex.quote:not-read-back-as-one-word", "sh does not read quote(s) back as the word s",
-                      {"kind": "quote", "s": s, "impl": impl})
+        # replay: the implementation's output is read back as exactly [s]
+        if ip != [s]:
+            chk.violation("C09:shlex.quote:not-read-back-as-one-word", "sh does not read quote(s) back as the word s",
+                          {"kind": "quote", "s": s, "impl": impl, "read_back": ip})
     chk.feature("quote:exhaustive-strings", sum(len(QUOTE_ALPHABET) ** k for k in range(n + 1)))
     # independent oracle: the real sh on a sample of the implementation's outputs
     sample = strings[:1 + 12 + 144 + 1728] + chk.rng.sample(strings, chk.budget(1200, 12000))
@@ -440,11 +450,6 @@ def corr_quote(chk, drv):
         if w != [s]:
             chk.violation("C09:shlex.quote:real-sh-reads-something-else", "the real sh does not read quote(s) back as s",
                           {"kind": "quote", "s": s, "impl": curl_mod.quote(s), "sh": w})
-
-
-def drv_parse_cache_ok(impl, q, p, s):
-    # p = shParse(model quote) ; when impl == model quote this is shParse(impl)
-    return impl == q and p == [s]
 
 
 def corr_utf8(chk, drv):
@@ -495,10 +500,23 @@ def corr_filter(chk, drv, tbl, auto, variant):
 
 
 def judge_commands(chk, drv, mechanism, items, tbl, auto, real_sh=True):
-    """items: [(cmd, orig, in_scope, replay_input)] — the specification judges what the implementation printed."""
-    items = [it for it in items if it[0] is not None]
+    """items: [(cmd, orig, in_scope, replay_input)] — the specification judges what the implementation printed.
+    Returns, aligned with `items`, what the command denotes: curlSem of the argv (specification's shParse, or the real
+    sh where the text is outside the specification's fragment); None where no command was printed."""
+    all_items, items = items, [it for it in items if it[0] is not None]
     outs = drv.batch([("judge", {"auto": auto, "orig": orig, "cmd": cmd}) for cmd, orig, _, _ in items])
     shs = pmap(lambda it: sh_command_argv(it[0]), items) if real_sh else [None] * len(items)
+    outside = [(i, real) for i, (j, real) in enumerate(zip(outs, shs)) if j.get("argv") is None and real is not None]
+    if outside:
+        for (i, _), sem in zip(outside, drv.batch([("curlsem", {"argvs": [real for _, real in outside]})])[0]):
+            outs[i]["sem_by_real_sh"] = sem
+    denoted = iter([j.get("sem") or j.get("sem_by_real_sh") for j in outs])
+    result = [next(denoted) if it[0] is not None else None for it in all_items]
+    _judge_verdicts(chk, mechanism, items, outs, shs, tbl, auto, real_sh)
+    return result
+
+
+def _judge_verdicts(chk, mechanism, items, outs, shs, tbl, auto, real_sh):
     for (cmd, orig, in_scope, rin), j, real in zip(items, outs, shs):
         if "__err__" in j:
             raise InfraError(f"judge failed on {cmd!r}: {j}")
@@ -537,8 +555,6 @@ def corr_generate(chk, drv, tbl, auto, variants, n, wf_only=False, mechanism="ge
         chk.feature(f"{mechanism}:headers={min(len(r['headers']), 3)}")
         chk.feature(f"{mechanism}:body={'bytes' if 'body_bytes' in r else 'none' if r.get('body') is None else 'text'}")
         chk.feature(f"{mechanism}:wf={m['wf']}")
-        if impl != m["cmd"]:
-            chk.disagreement(mechanism, r, m["cmd"], impl)
         # replay on well-formed requests with a text payload (the scope of the property)
         if "body_bytes" in r:
             try:
@@ -550,7 +566,35 @@ def corr_generate(chk, drv, tbl, auto, variants, n, wf_only=False, mechanism="ge
             text, scope = r["body"], True
         scope = scope and m["wf"]
         items.append((impl if not impl.startswith("<") else None, req_original(r, text), scope, r))
-    judge_commands(chk, drv, mechanism, items, tbl, auto)
+    denoted = judge_commands(chk, drv, mechanism, items, tbl, auto)
+    compare_denotations(chk, mechanism, [(r, m, it[0]) for r, m, it in zip(reqs, outs, items)], denoted)
+
+
+def compare_denotations(chk, mechanism, triples, denoted):
+    """correspondence on the property-relevant observable: the request the printed text denotes (argv through sh, then
+    curl's reading of it). The spelling is only counted, so that an equivalent respelling does not alarm."""
+    for (rin, m, impl), d in zip(triples, denoted):
+        if impl is None:
+            chk.feature(f"{mechanism}:no-command")
+            chk.disagreement(mechanism, rin, m["cmd"], "<exception>")
+            continue
+        if impl == m["cmd"]:
+            chk.feature(f"{mechanism}:text-identical")
+            continue
+        if d is not None and m["sem"] is not None and d == m["sem"]:
+            # (for the kinds readsFile / globbed / unsupported "same" only means: fails in the same way)
+            chk.feature(f"{mechanism}:text-differs-same-{'request' if d['kind'] == 'request' else 'failure-kind'}")
+            continue
+        if not m["wf"]:
+            # an input `requests` would have rejected (':' in a name, leading blank in a value, …): a respelling may
+            # change what such garbage denotes without touching any real request; only identity is evidence here
+            chk.feature(f"{mechanism}:text-differs-on-input-outside-wf")
+            continue
+        if d is None and m["sem"] is None:
+            # neither text is a simple command of the fragment (NUL, unquoted method with shell operators): no denotation
+            chk.feature(f"{mechanism}:text-differs-both-without-denotation")
+            continue
+        chk.disagreement(mechanism, rin, m["cmd"], impl)
 
 
 # ---- real cases ------------------------------------------------------------------------------------------------
@@ -718,7 +762,7 @@ def corr_as_curl(chk, drv, tbl, auto, variants, n):
         plan.append((kw, case_input(op, kw, user, flow, verify), cmd, sent, req))
         wires.append(("generate", {"vs": variants, "tbl": tbl, "req": req}))
     outs = drv.batch(wires)
-    items = []
+    items, triples = [], []
     for (kw, rin, cmd, sent, req), m in zip(plan, outs):
         if "__err__" in m:
             raise InfraError(f"model generate failed: {m}")
@@ -727,14 +771,21 @@ def corr_as_curl(chk, drv, tbl, auto, variants, n):
         chk.feature(f"as_curl:flow={rin['flow']}")
         chk.feature(f"as_curl:media={kw.get('media_type')}")
         cmd = canon_boundary(cmd)
-        if cmd != canon_boundary(m["cmd"]):
-            chk.disagreement("as_curl", rin, canon_boundary(m["cmd"]), cmd)
+        m["cmd"] = canon_boundary(m["cmd"])
+        if m["sem"] is not None and m["sem"]["kind"] == "request":
+            mb = _CLOSE.search(m["sem"]["body"] or "")
+            if mb:
+                bd = mb.group(1)
+                m["sem"] = {**m["sem"], "body": m["sem"]["body"].replace(bd, "BOUNDARY"),
+                            "headers": [[k, v.replace(bd, "BOUNDARY")] for k, v in m["sem"]["headers"]]}
+        triples.append((rin, m, cmd))
         text, is_text = text_of(sent.body)
         orig = canon_original({"method": str(sent.method), "url": str(sent.url), "body": text, "verify": verify,
                                "headers": [[str(k), str(v)] for k, v in sent.headers.items()], "known": req["known"]})
         ascii_headers = all(str(v).isascii() for v in sent.headers.values())
         items.append((cmd, orig, is_text and ascii_headers, rin))
-    judge_commands(chk, drv, "as_curl", items, tbl, auto)
+    denoted = judge_commands(chk, drv, "as_curl", items, tbl, auto)
+    compare_denotations(chk, "as_curl", triples, denoted)
 
 
 # ---- specification validation ------------------------------------------------------------------------------------
@@ -1077,9 +1128,23 @@ def replay(chk, data):
         print("recorded model:", rp.get("model"))
         print("recorded impl :", rp.get("impl"))
         inp = rp.get("input")
-        if isinstance(inp, dict) and "method" in inp:
+        if isinstance(inp, dict) and "case" in inp:
+            schema = build_schema("http://127.0.0.1:1/api")
+            flow = "recorded" if inp["flow"] in ("recorded", "loopback") else "direct"
+            case = rebuild_case(schema, inp)
+            cmd, _, passed = command_for(case, inp["user_headers"], flow, inp["verify"], requests.Session())
+            from schemathesis.transport.prepare import prepare_request
+            req = prepared_to_req(prepare_request(case, passed, False), case.headers, inp["verify"])
+            print("impl now :", canon_boundary(cmd))
+            print("model now:", canon_boundary(drv.one("generate", {"vs": detect_variants(chk, drv, tbl), "tbl": tbl,
+                                                                    "req": req})["cmd"]))
+        elif isinstance(inp, dict) and "url" in inp:
             print("impl now :", impl_generate(inp))
             print("model now:", drv.one("generate", {"vs": detect_variants(chk, drv, tbl), "tbl": tbl, "req": inp})["cmd"])
+        elif isinstance(inp, dict) and "headers" in inp and "known" in inp:
+            print("impl now :", impl_filter(inp["headers"], inp["known"]))
+        elif isinstance(inp, str):
+            print("impl now :", repr(curl_mod.quote(inp)), " model now:", repr(drv.one("quote", {"ss": [inp]})[0]))
         return 0
     inp = rp.get("input", {})
     print("input:", inp)
@@ -1087,7 +1152,7 @@ def replay(chk, data):
     cmd = None
     if "req" in inp:
         cmd = impl_generate(inp["req"])
-    elif "method" in inp:
+    elif "url" in inp:
         cmd = impl_generate(inp)
     elif "case" in inp:
         schema = build_schema("http://127.0.0.1:1/api")
